@@ -25,6 +25,7 @@ import (
 	"errors"
 	"fmt"
 	"io"
+	"math"
 	"os"
 	"os/exec"
 	"regexp"
@@ -194,6 +195,7 @@ type world struct {
 	writes     int
 	owed       bool // a New request message left after the last own-peer terminal status
 	reqCount   int  // New request messages that reached the network
+	workerHasOurs bool // the worker is between PopTasks and the manager's answer to GetRequestTask for OUR task
 }
 
 func newWorld() *world {
@@ -389,15 +391,27 @@ func peerName(p peer.ID) string {
 }
 
 type gatedExec struct {
-	w  *world
-	ex *executor.Executor
+	w     *world
+	ex    *executor.Executor
+	tq    *taskqueue.WorkerTaskQueue
+	dummy graphsync.RequestID
 }
 
 func (g gatedExec) ExecuteTask(ctx context.Context, pid peer.ID, task *peertask.Task) bool {
+	isDummy := task.Topic == peertask.Topic(g.dummy)
 	g.w.mu.Lock()
 	g.w.workerGoid = goid()
+	g.w.workerHasOurs = !isDummy
 	g.w.mu.Unlock()
 	g.w.arrive("work")
+	g.w.mu.Lock()
+	g.w.workerHasOurs = false
+	g.w.mu.Unlock()
+	if isDummy {
+		// the "other request" that keeps the only worker busy: it never reaches the request manager
+		g.tq.TaskDone(pid, task)
+		return false
+	}
 	return g.ex.ExecuteTask(ctx, pid, task)
 }
 
@@ -532,6 +546,9 @@ type caseRun struct {
 	hookErrInjected    bool
 	pauseSeen          bool // the script issued a pause (API or block hook)
 	mgrStuck           bool // the manager goroutine did not answer a PeerState query at a quiescent point
+	busy               bool // `new ... 1`: a dummy task keeps the single worker busy ahead of the request
+	dummyID            graphsync.RequestID
+	c23Checks          int
 	cancelFam          bool // the script issued a stimulus that cancels the request context (cancel, failure status, response-hook error)
 	quiesceFailed      bool
 }
@@ -634,6 +651,7 @@ func (cr *caseRun) obs(extra string) {
 	if !quiesce() {
 		cr.quiesceFailed = true
 	}
+	cr.c23Barrier()
 	w := cr.w
 	w.mu.Lock()
 	p := strconv.Itoa(w.pCount)
@@ -685,6 +703,102 @@ func (cr *caseRun) apiResult(name string, err error) {
 	cr.w.mu.Lock()
 	cr.w.api = append(cr.w.api, name+"="+r)
 	cr.w.mu.Unlock()
+}
+
+// c23Barrier: property C23, requestor side, at a quiescent barrier, from public APIs only
+// (RequestManager.PeerState, PeerState.Diagnostics): a Queued request is pending in the task queue, a
+// Running one active, a Paused one in neither, and a queue entry of the request matches its state.
+// Not judged: while the manager is held inside a hook, and while the worker sits between PopTasks and the
+// manager's answer to GetRequestTask for this request (a transient the harness' `work` gate freezes, not a
+// resting state of the node).  Queue entries WITHOUT tracked state (the stale task of a request that ended
+// while queued, until a worker pops it; the dummy task) are not a request's reported state: counted only.
+func (cr *caseRun) c23Barrier() {
+	if !cr.created || cr.mgrStuck || cr.w.isParked("rhook") {
+		return
+	}
+	cr.w.mu.Lock()
+	transient := cr.w.workerHasOurs
+	cr.w.mu.Unlock()
+	if transient {
+		cr.out.Cov("c23.skip-transient")
+		return
+	}
+	pch := make(chan peerstate.PeerState, 1)
+	go func() { pch <- cr.rm.PeerState(peerID(0)) }()
+	quiesce()
+	var ps peerstate.PeerState
+	select {
+	case ps = <-pch:
+	default:
+		cr.mgrStuck = true
+		return
+	}
+	cr.c23Checks++
+	act, pend := 0, 0
+	for _, id := range ps.TaskQueueState.Active {
+		if id == cr.reqID {
+			act++
+		}
+	}
+	for _, id := range ps.TaskQueueState.Pending {
+		if id == cr.reqID {
+			pend++
+		}
+	}
+	st, tracked := ps.RequestStates[cr.reqID]
+	for id, msgs := range ps.Diagnostics() {
+		if id == cr.reqID && tracked {
+			cr.out.Fail("c23-req-diagnostics", "PeerState.Diagnostics at a quiescent barrier: %s", strings.Join(msgs, "; "))
+		} else if id != cr.dummyID {
+			cr.out.Cov("c23.stale-entry-untracked")
+		}
+	}
+	if tracked {
+		cr.out.Cov("c23.barrier." + st.String())
+		ok := true
+		switch st {
+		case graphsync.Queued:
+			ok = pend == 1 && act == 0
+		case graphsync.Running:
+			ok = act == 1 && pend == 0
+		case graphsync.Paused:
+			ok = act == 0 && pend == 0
+		}
+		if !ok {
+			cr.out.Fail("c23-req-diagnostics", "request reported %s but its task is %d times active, %d times pending in the queue", st, act, pend)
+		}
+	} else {
+		cr.out.Cov("c23.barrier.untracked")
+	}
+}
+
+// c23Final: once the request has ended and the node is at rest, the task queue reports no active and no
+// pending work (Stats and PeerState).
+func (cr *caseRun) c23Final(ended bool) {
+	if !ended || cr.mgrStuck || cr.w.parkedGates() != "" {
+		return
+	}
+	quiesce()
+	st := cr.tq.Stats()
+	ps, _ := cr.peerStateRaw()
+	cr.out.Cov("c23.final-checked")
+	if st.Active != 0 || st.Pending != 0 || len(ps.TaskQueueState.Active) != 0 || len(ps.TaskQueueState.Pending) != 0 || len(ps.RequestStates) != 0 {
+		cr.out.Fail("c23-req-final", "all requests have ended and the node is quiescent, but Stats report active=%d pending=%d, PeerState lists %d active / %d pending tasks and %d request states",
+			st.Active, st.Pending, len(ps.TaskQueueState.Active), len(ps.TaskQueueState.Pending), len(ps.RequestStates))
+	}
+}
+
+func (cr *caseRun) peerStateRaw() (peerstate.PeerState, bool) {
+	pch := make(chan peerstate.PeerState, 1)
+	go func() { pch <- cr.rm.PeerState(peerID(0)) }()
+	quiesce()
+	select {
+	case ps := <-pch:
+		return ps, true
+	default:
+		cr.mgrStuck = true
+		return peerstate.PeerState{}, false
+	}
 }
 
 // peerStateStr: synchronous query through the manager's mailbox; "-" if the manager is parked.
@@ -809,6 +923,10 @@ func runCase(c reg.Case, out *reg.Out) {
 			if cr.n < 1 || cr.n > 8 || cr.k < 0 || cr.k > cr.n || cr.v < 1 || cr.v > 6 {
 				out.Line("bad-op")
 				continue
+			}
+			cr.busy = len(op) > 4 && op[4] == "1"
+			if cr.busy {
+				out.Cov("new.busy-worker")
 			}
 			cr.setup()
 			out.Cov(fmt.Sprintf("new.local=%s", map[bool]string{true: "all", false: "partial"}[cr.k == cr.n]))
@@ -1085,7 +1203,13 @@ func (cr *caseRun) setup() {
 	ex := executor.NewExecutor(cr.rm, blockHooks{w})
 	cr.rm.SetDelegate(peerHandler{w})
 	cr.rm.Startup()
-	cr.tq.Startup(1, gatedExec{w, ex})
+	cr.dummyID = graphsync.NewRequestID()
+	cr.tq.Startup(1, gatedExec{w, ex, cr.tq, cr.dummyID})
+	if cr.busy {
+		// another task of the same peer is ahead in the queue and occupies the only worker
+		cr.tq.PushTask(peerID(0), peertask.Task{Topic: cr.dummyID, Priority: math.MaxInt32, Work: 1})
+		quiesce()
+	}
 	cr.reqID = graphsync.NewRequestID()
 	rctx, rcancel := context.WithCancel(context.WithValue(ctx, graphsync.RequestIDContextKey{}, cr.reqID))
 	cr.reqCtxCancel = rcancel
@@ -1157,6 +1281,7 @@ func (cr *caseRun) end() {
 	}
 	cr.obs(fmt.Sprintf("closed=%s%s %s prot=%d", b(pc), b(ec), psStr, nprot))
 	cr.oracle(pc, ec)
+	cr.c23Final(pc && ec)
 }
 
 // owesAnswer: a New request message left after the last own-peer terminal status.
